@@ -4,6 +4,7 @@ package checks
 import (
 	_ "verif/checks/c01"
 	_ "verif/checks/c02"
+	_ "verif/checks/c03"
 	_ "verif/checks/c05"
 	_ "verif/checks/c08"
 	_ "verif/checks/c09"
